@@ -65,10 +65,14 @@ Definition obs_eqb (a b : obs) : bool :=
   | _, _ => false
   end.
 
-(* One scheduler event: actor i ran; hint = the partition the harness saw it arrive at (the Go map
-   iteration order is resolved by the observation); snap = the table read through the hook
-   (recorded on the last event of a scheduler step). *)
-Inductive kev := KEv (i : nat) (hint : option nat) (o : obs) (snap : option (list snap_row)).
+(* One observation: actor i ran until it parked / was seen spinning; hint = the partition the
+   harness saw it arrive at (the Go map iteration order is resolved by the observation). *)
+Inductive kev := KEv (i : nat) (hint : option nat) (o : obs).
+
+(* One scheduler step: the resumed actor's observation first, then the observations of the actors
+   that were spinning (each was made to pass the tindex lock once); then the table read through
+   the hook (None after a panic: the service lock stays locked). *)
+Definition group := (list kev * option (list snap_row))%type.
 
 (* order-oracle values to try: the observed partition if there is one; for an actor observed
    spinning in a waiting visit, every element it has not reached yet (the harness cannot see
@@ -87,18 +91,51 @@ Definition choices (s : state) (i : nat) (hint : option nat) (o : obs) : list na
       end
   end.
 
-Definition snap_ok (s : state) (sn : option (list snap_row)) : bool :=
+Definition snap_ok (sn : option (list snap_row)) (s : state) : bool :=
   match sn with None => true | Some l => list_eqb row_eqb (snapshot s) l end.
 
 Definition ev_step (ev : kev) (s : state) : list state :=
-  let '(KEv i hint o sn) := ev in
+  let '(KEv i hint o) := ev in
   flat_map (fun c => let '(s', o') := advance 200 s i c in
-                     if obs_eqb o' o && snap_ok s' sn then [s'] else []) (choices s i hint o).
+                     if obs_eqb o' o then [s'] else []) (choices s i hint o).
 
-Fixpoint replay (ss : list state) (evs : list kev) : bool :=
+Definition run_evs (evs : list kev) (ss : list state) : list state :=
+  fold_left (fun ss ev => flat_map (ev_step ev) ss) evs ss.
+
+Fixpoint insert_all {A : Type} (x : A) (l : list A) : list (list A) :=
+  match l with
+  | [] => [[x]]
+  | y :: t => (x :: l) :: map (cons y) (insert_all x t)
+  end.
+Fixpoint perms {A : Type} (l : list A) : list (list A) :=
+  match l with
+  | [] => [[]]
+  | x :: t => flat_map (insert_all x) (perms t)
+  end.
+
+Fixpoint first_nonempty {A : Type} (l : list (list A)) : list A :=
+  match l with
+  | [] => []
+  | [] :: t => first_nonempty t
+  | r :: _ => r
+  end.
+
+(* The spinners released by one step run concurrently in the implementation: their relative
+   order is not observable and does matter in one situation (GetJournal without create racing
+   with a creating GetOrCreateJournal for the same tag line after a deletion), so every order of
+   the spinners' observations is tried, the harness' order first. *)
+Definition group_step (g : group) (ss : list state) : list state :=
+  let '(evs, sn) := g in
   match evs with
+  | [] => ss
+  | e :: rest =>
+      first_nonempty (map (fun order => filter (snap_ok sn) (run_evs (e :: order) ss)) (perms rest))
+  end.
+
+Fixpoint replay (ss : list state) (gs : list group) : bool :=
+  match gs with
   | [] => match ss with [] => false | _ => true end
-  | ev :: tl => replay (flat_map (ev_step ev) ss) tl
+  | g :: tl => replay (group_step g ss) tl
   end.
 
 (* pre partitions (tags 0..pre-1) exist and are unused when the actors start *)
@@ -140,7 +177,7 @@ Fixpoint replay_ops (ix : tix) (l : list (rop * rres * list snap_row)) : bool :=
   end.
 
 Inductive case :=
-| KRun (pre : nat) (progs : list (list proc)) (evs : list kev)
+| KRun (pre : nat) (progs : list (list proc)) (evs : list group)
 | KOps (pre : nat) (l : list (rop * rres * list snap_row)).
 
 Definition check (c : case) : bool :=
